@@ -31,6 +31,7 @@ def ax(eng, name, formula):
 
 def const_axioms(eng):
     ax(eng, 'pi in (3.14159, 3.1416)', z3.And(PI.t > z3.RealVal('3.14159'), PI.t < z3.RealVal('3.1416')))
+    eng.pc.append(z3.Real('np.inf') > z3.RealVal('1' + '0' * 309))
 
 
 def real_fn(eng, name, x, axioms=None):
@@ -276,7 +277,8 @@ def np_zeros(eng, args, kw):
 
 
 def np_ones(eng, args, kw):
-    r = np_full(eng, args[0], 1)
+    dt = kw.get('dtype')
+    r = np_full(eng, args[0], True if isinstance(dt, Builtin) and dt.name == 'bool' else 1)
     if r is None:
         raise EngineError('np.ones with symbolic shape')
     return r
@@ -507,11 +509,43 @@ def np_allclose(eng, args, kw):
     return r
 
 
+def np_cumsum(eng, args, kw):
+    x = args[0]
+    if kw or len(args) != 1:
+        raise EngineError('np.cumsum form')
+    xs = to_nd(eng, x)
+    if not isinstance(xs, list) or (xs and isinstance(xs[0], list)):
+        raise EngineError('np.cumsum of a non-vector')
+    out, acc = [], 0
+    for v in xs:
+        acc = eng.binop(ast.Add(), acc, v)
+        out.append(acc)
+    return NDArr(out)
+
+
 def np_hypot(eng, args, kw):
     a, b = args
     if isinstance(a, NDArr) or isinstance(b, NDArr):
         return eng.nd_binary(lambda x, y: np_hypot(eng, [x, y], {}), a, b)
     return sqrt_real(eng, r_add(r_mul(a, a), r_mul(b, b)))
+
+
+def np_maximum(eng, args, kw):
+    a, b = args
+    if isinstance(a, NDArr) or isinstance(b, NDArr):
+        return eng.nd_binary(lambda x, y: np_maximum(eng, [x, y], {}), a, b)
+    if isinstance(a, CX) or isinstance(b, CX):
+        raise EngineError('np.maximum of complex values')
+    return ite(r_cmp('>=', a, b), a, b)
+
+
+def np_minimum(eng, args, kw):
+    a, b = args
+    if isinstance(a, NDArr) or isinstance(b, NDArr):
+        return eng.nd_binary(lambda x, y: np_minimum(eng, [x, y], {}), a, b)
+    if isinstance(a, CX) or isinstance(b, CX):
+        raise EngineError('np.minimum of complex values')
+    return ite(r_cmp('<=', a, b), a, b)
 
 
 def np_dot(eng, args, kw):
@@ -562,19 +596,23 @@ np_log, np_exp, np_cos, np_sin, np_angle = (ufunc(np_log), ufunc(np_exp), ufunc(
 
 NP_LINALG = Namespace('np.linalg', {'norm': Builtin('np.linalg.norm', np_norm)})
 
+INF = SV(z3.Real('np.inf'), 'real')      # float infinity: a real beyond every finite float (axiom in const_axioms)
+
 NP = Namespace('np', {
-    'pi': PI, 'e': E,
+    'pi': PI, 'e': E, 'inf': INF,
     'sqrt': Builtin('np.sqrt', np_sqrt), 'abs': Builtin('np.abs', np_abs),
     'angle': Builtin('np.angle', np_angle), 'conj': Builtin('np.conj', np_conj),
     'cos': Builtin('np.cos', np_cos), 'sin': Builtin('np.sin', np_sin),
     'log': Builtin('np.log', np_log), 'exp': Builtin('np.exp', np_exp),
     'sign': Builtin('np.sign', np_sign), 'array': Builtin('np.array', np_array),
     'zeros': Builtin('np.zeros', np_zeros), 'ones': Builtin('np.ones', np_ones),
-    'eye': Builtin('np.eye', np_eye), 'copy': Builtin('np.copy', np_copy),
+    'eye': Builtin('np.eye', np_eye), 'identity': Builtin('np.identity', np_eye), 'copy': Builtin('np.copy', np_copy),
     'sum': Builtin('np.sum', np_sum), 'argmax': Builtin('np.argmax', np_argmax),
     'arange': Builtin('np.arange', np_arange), 'dot': Builtin('np.dot', np_dot),
     'logical_not': Builtin('np.logical_not', np_logical_not),
     'hypot': Builtin('np.hypot', np_hypot),
+    'maximum': Builtin('np.maximum', np_maximum), 'minimum': Builtin('np.minimum', np_minimum),
+    'cumsum': Builtin('np.cumsum', np_cumsum),
     'flip': Builtin('np.flip', np_flip),
     'unique': Builtin('np.unique', np_unique),
     'allclose': Builtin('np.allclose', np_allclose),
@@ -1429,6 +1467,10 @@ def nd_getitem(eng, arr, idx):
             r = NDArr(mapnd(lambda v: v, arr.data))
             r.masked_by = idx
             return r
+        if len(idx.shape) < len(arr.shape) and idx.shape == arr.shape[:len(idx.shape)] and all(isinstance(v, bool) for v in flat(idx.data)):
+            # concrete boolean mask over the leading axes: numpy's own selection of the sub-arrays
+            import numpy as _np
+            return nd_from_obj(nd_to_obj(eng, arr)[_np.array(idx.data, dtype=bool)])
         if len(arr.shape) == 1 and all(is_intlike(v) for v in flat(idx.data)):
             # integer (fancy) index into a vector: elementwise selection
             n = len(arr.data)
@@ -1517,6 +1559,14 @@ def setitem(eng, base, idx, v):
             o = nd_to_obj(eng, base)
             mo = nd_to_obj(eng, idx)
             vo = nd_to_obj(eng, v)
+            if all(isinstance(b, bool) for b in flat(idx.data)) and getattr(v, 'masked_by', None) is None:
+                mb = _np.array(idx.data, dtype=bool)
+                if vo.shape == o[mb].shape and vo.shape != bsh:
+                    # the value is a true selection under the same concrete mask (see nd_getitem)
+                    o[mb] = vo
+                    base.data = nd_from_obj(o).data
+                    eng.note_write(('nd', base))
+                    return
             if getattr(v, 'masked_by', None) is not None or (isinstance(v, NDArr) and v.shape == bsh):
                 if vo.shape != bsh:
                     raise EngineError('mask store of a selection with mismatching shape')
